@@ -8,7 +8,7 @@ import armi.reactor.grids.structuredGrid as sgmod
 import armi.utils.hexagon as hexagon
 from armi.reactor.grids.hexagonal import HexGrid
 
-shims.patch(sgmod, np=shims.np_shim)
+shims.patch(sgmod, np=shims.np_shim_obj)
 shims.patch(hexmod, np=shims.np_shim, sqrt=shims.math_shim.sqrt, isclose=shims.math_shim.isclose)
 shims.patch(hexagon, math=shims.math_shim, int=shims.int_shim)
 
